@@ -507,6 +507,10 @@ impl QueryRouter {
         let mut visited_write_statement = false;
         let mut prev_inferred_shard = None;
 
+        // Shard inference can fail; the role still has to be decided from every statement of the
+        // message, so the first failure is reported at the end instead of returning early.
+        let mut shard_error = None;
+
         if self.pool_settings.db_activity_based_routing {
             let db = self.pool_settings.db.clone();
             let state = self.database_activity_state(&db);
@@ -546,20 +550,8 @@ impl QueryRouter {
                         }
                     }
 
-                    match &self.pool_settings.automatic_sharding_key {
-                        Some(_) => {
-                            // TODO: if we have multiple queries in the same message,
-                            // we can either split them and execute them individually
-                            // or discard shard selection. If they point to the same shard though,
-                            // we can let them through as-is.
-                            // This is basically building a database now :)
-                            let inferred_shard = self.infer_shard(query);
-                            self.handle_inferred_shard(inferred_shard, &mut prev_inferred_shard)?;
-                        }
-
-                        None => (),
-                    };
-
+                    // The role first: shard inference below can fail, and that must not leave
+                    // a write with the role of some earlier message.
                     let has_locks = !query.locks.is_empty();
                     let has_mutation = Self::is_mutation_query(query);
 
@@ -574,11 +566,33 @@ impl QueryRouter {
                             true => None,                 // Any server role is fine in this case.
                         }
                     }
+
+                    match &self.pool_settings.automatic_sharding_key {
+                        Some(_) => {
+                            // TODO: if we have multiple queries in the same message,
+                            // we can either split them and execute them individually
+                            // or discard shard selection. If they point to the same shard though,
+                            // we can let them through as-is.
+                            // This is basically building a database now :)
+                            let inferred_shard = self.infer_shard(query);
+                            if let Err(err) =
+                                self.handle_inferred_shard(inferred_shard, &mut prev_inferred_shard)
+                            {
+                                shard_error.get_or_insert(err);
+                            }
+                        }
+
+                        None => (),
+                    };
                 }
 
                 // Likely a write
                 _ => {
                     debug!("Write statement found, going to primary");
+
+                    // The role first: shard inference below can fail.
+                    visited_write_statement = true;
+                    self.active_role = Some(Role::Primary);
 
                     if self.pool_settings.db_activity_based_routing {
                         // add all of the query tables to the mutation cache
@@ -591,19 +605,31 @@ impl QueryRouter {
                             // same message, we can either split them and execute them individually
                             // or discard shard selection. If they point to the same shard though,
                             // we can let them through as-is.
-                            let inferred_shard = self.infer_shard_on_write(q)?;
-                            self.handle_inferred_shard(inferred_shard, &mut prev_inferred_shard)?;
+                            match self.infer_shard_on_write(q) {
+                                Ok(inferred_shard) => {
+                                    if let Err(err) = self.handle_inferred_shard(
+                                        inferred_shard,
+                                        &mut prev_inferred_shard,
+                                    ) {
+                                        shard_error.get_or_insert(err);
+                                    }
+                                }
+                                Err(err) => {
+                                    shard_error.get_or_insert(err);
+                                }
+                            }
                         }
 
                         None => (),
                     };
-                    visited_write_statement = true;
-                    self.active_role = Some(Role::Primary);
                 }
             };
         }
 
-        Ok(())
+        match shard_error {
+            Some(err) => Err(err),
+            None => Ok(()),
+        }
     }
 
     fn handle_inferred_shard(
